@@ -1218,8 +1218,9 @@ def check_C05(ck):
                             "lookup": int(m.group(1)), "implementation": res, "hash": info, "script": ls, "seed": ck.seed}), True)
     # the bodies of hash_type_id (plain and checked) as translated from the header on this run (HashL.exec, driver
     # --src) answer every lookup of the battery; compared with the compiled functions
-    src_out = verif.run_model(verif.inject_rng(scripts, impl_out), mode="--src")
-    src_bad = verif.compare(scripts, impl_out, src_out)
+    src_scripts = scripts[:tier_n(ck, 700, 1500)]       # a bounded slice: the multiplier streams make these scripts large
+    src_out = verif.run_model(verif.inject_rng(src_scripts, impl_out), mode="--src")
+    src_bad = verif.compare(src_scripts, impl_out, src_out)
     lookups = sum(1 for ls in src_out.values() for l in ls if l.startswith(("vptr ", "raised unknown_class")))
     if src_bad and not nbad and not any(f_ for _, f_ in ck.violations):
         name, i, a, b = src_bad[0][:4]
